@@ -11,7 +11,7 @@ import numpy as np
 from dask import config
 from dask_array import _chunk as chunk
 from dask_array._new_collection import new_collection
-from dask_array._expr import ArrayExpr, ChunksFreeze, RootAlias
+from dask_array._expr import ArrayExpr, ChunksFreeze, RootAlias, _chunks_match
 from dask_array._materialize import _lower, _materialize
 from dask_array.manipulation._transpose import Transpose
 from dask_array._chunk_types import is_valid_chunk_type
@@ -108,6 +108,40 @@ __all__ = [
 ]
 
 
+def _rebuild_from_graph(source):
+    """``from_graph`` as the rebuild half of ``__dask_postpersist__``.
+
+    When a raw expression went through dask's generic optimizer
+    (``dask.persist``), the blocks handed back are those of the optimized root,
+    which a rewrite may have re-blocked (the sliding-window reductions avoid a
+    padding rechunk by emitting coarser blocks).  Located by block id they
+    would be taken for the advertised blocks when the counts coincide, and not
+    be found otherwise.  Wrap them in their real layout and bridge back to the
+    advertised one under the collection's name, as ``_materialize`` does for
+    pinned graphs.
+    """
+
+    def rebuild(layer, _meta, chunks, keys, name, *args, **kwargs):
+        names = {k[0] for k in layer if isinstance(k, tuple) and k}
+        if names and name not in names:
+            # what ``optimize_until`` schedules for this collection
+            optimized = source.simplify().lower_completely().simplify()
+            if optimized._name in names and not _chunks_match(optimized.chunks, chunks):
+                if any(math.isnan(s) for dim in chunks for s in dim):
+                    raise ValueError(
+                        f"optimization changed the block structure of {name} ({chunks} -> {optimized.chunks}) "
+                        "and the advertised chunks are unknown, so the persisted blocks cannot be placed on them"
+                    )
+                from dask_array._materialize import _lower
+
+                blocks = from_graph(layer, _meta, optimized.chunks, keys, optimized._name, *args, **kwargs)
+                bridged = _lower(blocks.expr.rechunk(chunks), optimize_graph=False)
+                return new_collection(RootAlias(bridged, name))
+        return from_graph(layer, _meta, chunks, keys, name, *args, **kwargs)
+
+    return rebuild
+
+
 class Array(DaskMethodsMixin):
     __dask_scheduler__ = staticmethod(named_schedulers.get("threads", named_schedulers["sync"]))
     __dask_optimize__ = staticmethod(lambda dsk, keys, **kwargs: dsk)
@@ -174,7 +208,7 @@ class Array(DaskMethodsMixin):
             # Fallback to synthetic meta if original is also None
             meta = np.empty((0,) * self.ndim, dtype=self.dtype)
         # Use self.chunks to preserve nan chunks for unknown-sized operations
-        return from_graph, (
+        return _rebuild_from_graph(self.expr), (
             meta,
             self.chunks,
             [],
